@@ -9,7 +9,7 @@
    lo <= hi, at least one grid point, strictly increasing, all inside [lo, hi].
    [nthR i l] is [nth i l 0]. *)
 From Coq Require Import ZArith Reals List Bool.
-From Verif Require Import Base.Num Base.Vec C14.Model C14.Proofs C14.ProofsIndex C14.ProofsUniform C14.ProofsSlice C14.ProofsNd C14.ProofsAxes C14.ProofsFactories.
+From Verif Require Import Base.Num Base.Vec C14.Model C14.Proofs C14.ProofsIndex C14.ProofsUniform C14.ProofsSlice C14.ProofsNd C14.ProofsAxes C14.ProofsFactories C14.ProofsByaxis.
 Import ListNotations.
 Local Open Scope R_scope.
 
@@ -378,3 +378,26 @@ Theorem getitem_ints_and_slices_axiswise : forall (strict : bool) (p : list (axi
   Forall valid (map2 sub_item p (map2 to_slice items (shape_of p))).
 Proof. exact getitem_ints_and_slices. Qed.
 Print Assumptions getitem_ints_and_slices_axiswise.
+
+(* ------------------------------------------------------------------ *)
+(* T2. byaxis.  The code indexes the unselected axes with 0 and the selected ones with ":",
+   then squeezes the unselected axes; the model does the same through [getitem] and [squeeze].
+   For every valid partition (any number of axes) the result is exactly the list of selected
+   axes, unchanged ([pick sel 0 p] keeps axis i iff i is in sel); byaxis[i] is axis i (negative
+   i from the end, IndexError outside [-ndim, ndim)); byaxis[[i1..ik]] stacks the axes in that order. *)
+Theorem byaxis_returns_the_selected_axes : forall (strict : bool) (p : list (axis R)) (sel : list Z),
+  Forall valid p -> byaxis_sel strict p sel = Ok (pick sel 0 p).
+Proof. exact byaxis_sel_spec. Qed.
+Print Assumptions byaxis_returns_the_selected_axes.
+Theorem byaxis_int_is_that_axis : forall (strict : bool) (p : list (axis R)) (i : Z),
+  Forall valid p -> (- zlen p <= i < zlen p)%Z ->
+  byaxis1 strict p (AxInt i) = Ok [nth (Z.to_nat (if (i <? 0)%Z then i + zlen p else i)) p (mkAxis 0 0 [])].
+Proof. exact byaxis_int_spec. Qed.
+Theorem byaxis_int_out_of_range_rejected : forall (strict : bool) (p : list (axis R)) (i : Z),
+  (i < - zlen p \/ zlen p <= i)%Z -> byaxis1 strict p (AxInt i) = IndexErr.
+Proof. exact byaxis_int_out_of_range. Qed.
+Theorem byaxis_sequence_stacks_the_axes : forall (strict : bool) (p : list (axis R)) (l : list Z),
+  Forall valid p -> (forall i, In i l -> (- zlen p <= i < zlen p)%Z) ->
+  byaxis_seq strict p l = Ok (map (axis_at p) l).
+Proof. exact byaxis_seq_spec. Qed.
+Print Assumptions byaxis_sequence_stacks_the_axes.
